@@ -72,3 +72,9 @@ Proof. repeat split; vm_compute; reflexivity. Qed.
 From SymfcG Require Import ShapesCombos ShapesO1.
 Theorem c04_recorded_sources_in_force : ShapesCombos_as_recorded = true /\ ShapesO1_as_recorded = true.
 Proof. repeat split; reflexivity. Qed.
+
+(** The remaining source this property rests on is the recorded one (the basis-set classes of orders 2-4; the orbit routines): whole-function match,
+    regenerated on every run (closes the gap between "the expected statements are present" and "nothing else was added"). *)
+From SymfcG Require Import ShapesBasis ShapesPerm.
+Theorem c04_recorded_sources2_in_force : ShapesBasis_as_recorded = true /\ ShapesPerm_as_recorded = true.
+Proof. repeat split; reflexivity. Qed.
